@@ -324,10 +324,14 @@ def run(ctx):
     ctx.level = "proof"
     install_shims()
     items = [("law", n) for n in _laws()] + [("eq", "ZSqrtTwo"), ("eq", "ZOmega"), ("sqrt", None), ("normalize", None)]
-    if ctx.tier == "thorough":
+    # the tail of _solve_diophantine with its factoring subroutines stubbed by arbitrary ring elements ("dioph") was tried in the thorough tier
+    # with budgets of 10 and 40 minutes: the path exploration does not finish - stated as outside (run it with --only dioph)
+    if ctx.only and "dioph" in ctx.only:
         items.append(("dioph", None))
-    if ctx.only:
+    if ctx.only and "dioph" not in ctx.only:
         items = [it for it in items if ctx.only in f"{it[0]}:{it[1]}"]
+    elif ctx.only:
+        items = [it for it in items if it[0] == "dioph"]
     ctx.shapes = len(items)
     ctx.encode(ZSqrtTwo, ZOmega, NS._solve_diophantine, NS._primality_test, RI.DyadicMatrix, RI.SO3Matrix)
     ctx.bound(ring_laws="ALL integer coefficients (z3 nonlinear integer arithmetic; no bound)", normalize="|coefficients| <= 6 (loop forks)",
